@@ -8,5 +8,8 @@ pub fn run(ctx: &Ctx) {
     ctx.set_exhaustive(false);
     let n = ctx.tier.pick(300_000u32, 4_000_000u32);
     run_forms_n(ctx, FormSet::Transfer, n, "Transfer");
+    if ctx.tier == Tier::Thorough {
+        crate::fuzzrun::exec_campaign(ctx, &["mov", "xchg", "push", "pop", "pushf", "popf", "lahf", "sahf", "xlat"], &[]);
+    }
     crate::hist::run_stack_histories(ctx);
 }
